@@ -49,7 +49,7 @@ class Parser(object):
                   tabmodule=self.tabmodule)
 
     def parse(self, input):
-        return self.yacc.parse(input)
+        return self.yacc.parse(input, lexer=self.lex.clone())
 
     def run(self):
         while 1:
